@@ -1,7 +1,7 @@
 #!/bin/bash
 # usage: trymutant.sh <prop> <mutantdir> [tier]   mutantdir has patch.diff and demo_test.go
 # 1. confirms in a scratch worktree: builds, existing suite passes with the patch, demo fails with it and passes without
-# 2. applies the patch to /repo, runs ./check <prop>, restores /repo
+# 2. runs ./check <prop> with VERIF_REPO pointing at the scratch worktree with the patch (never touches /repo)
 prop=$1; dir=$2; tier=${3:-quick}
 export GOFLAGS=-mod=mod GOPROXY=off
 wt=/tmp/confirm.$$
@@ -16,14 +16,15 @@ race=""; grep -q -- "-race" $dir/README.md 2>/dev/null && [ "${prop}" = "C19" ] 
 ( cd $wt && timeout 300 go test $race -vet=off -count=1 -run "^($tests)\$" . ) >/dev/null 2>&1 && res="$res demo_with_patch=PASS(bad)" || res="$res demo_with_patch=fails"
 ( cd $wt && git checkout -q -- . )
 ( cd $wt && timeout 300 go test $race -vet=off -count=1 -run "^($tests)\$" . ) >/dev/null 2>&1 && res="$res demo_without_patch=passes" || res="$res demo_without_patch=FAILS(bad)"
-git -C /repo worktree remove --force $wt
 echo "CONFIRM:$res"
+# the check runs against the scratch worktree with the patch applied (VERIF_REPO): /repo is never touched
+( cd $wt && git apply $dir/patch.diff ) || { echo "cannot re-apply"; git -C /repo worktree remove --force $wt; exit 2; }
 cd /verif
-git -C /repo apply $dir/patch.diff || { echo "cannot apply to /repo"; exit 2; }
 start=$(date +%s)
-VERIF_SEED=${VERIF_SEED:-1} timeout 3000 ./check $prop --tier $tier > /verif/out/mutant.$prop.log 2>&1
+VERIF_REPO=$wt VERIF_SEED=${VERIF_SEED:-1} timeout 3000 ./check $prop --tier $tier > /verif/out/mutant.$prop.log 2>&1
 rc=$?
-git -C /repo checkout -- .
+git -C /repo worktree remove --force $wt
 end=$(date +%s)
 echo "CHECK $prop tier=$tier exit=$rc secs=$((end-start))"
 grep -m3 "VIOLATION\|CHECK-ERROR\|^OK" /verif/out/mutant.$prop.log | cut -c1-300
+# evidence/<prop>.json now describes the mutant run: regenerate it from /repo before committing
